@@ -119,6 +119,7 @@ class C04(Prop):
             'driver': st.sampled_from(['tick', 'run']),
             'events': st.lists(e, min_size=1, max_size=3),
             'xfrag': st.sampled_from([False, False, True]),
+            'retry': st.sampled_from([False, False, True]),
         }).map(_number)
 
     # ------------------------------------------------------------------
@@ -175,6 +176,7 @@ class C04(Prop):
                 log.append(('value_changed',))
 
         app = App()
+        calm = [False]       # second round (spec flag retry): the same event objects are fired again, nothing raises any more
 
         def mk(slot):
             def gen(self, es, h):
@@ -182,7 +184,7 @@ class C04(Prop):
                     log.append(('yield', es['id'], slot, s))
                     yield s
                 log.append(('end', es['id'], slot))
-                if h['kind'] == 'genraise':
+                if h['kind'] == 'genraise' and not calm[0]:
                     raise (BoomBase if h.get('base') else Boom)((es['id'], slot))
 
             @H('ev', priority=40 - 10 * slot)
@@ -207,6 +209,8 @@ class C04(Prop):
                     return h['val']
                 if k == 'none':
                     return None
+                if k == 'raise' and calm[0]:
+                    return None
                 if k == 'raise':
                     log.append(('raise', es['id'], slot))
                     raise (BoomBase if h.get('base') else Boom)((es['id'], slot))
@@ -230,6 +234,7 @@ class C04(Prop):
                 else:
                     idle = driver.run_to_quiescence(app, max_iter=300)
                     exhausted = idle.exhausted or idle.blocked > 0
+                self._ctx = (app, roots, calm)
             except BaseException as e:  # noqa: escaping the loop is itself a violation
                 escaped = repr(e)
         return log, events, exhausted, escaped, err.getvalue()
@@ -342,6 +347,27 @@ class C04(Prop):
             classes.append('notify')
         if len(especs) > len(spec['events']):
             classes.append('nested')
+        if spec.get('retry') and not errout.strip() and not [l for l in log if l[0] == 'exception' and l[1] is None and not spec.get('xfrag')]:
+            # a retry, judged last (it changes the Value objects judged above): the very same root event objects are fired
+            # once more after the causes of failure are gone
+            classes.append('same-event-objects-fired-again')
+            app, roots, calm = self._ctx
+            mark = len(log)
+            calm[0] = True
+            with driver.captured_stderr():
+                for e in roots:
+                    app.fire(e)
+                if driver.settle(app, 300) < 0:
+                    return bad('no-quiescence', 'retry round did not settle')
+            retry = log[mark:]
+            for es in spec['events']:
+                ns = [l for l in retry if l[0] == 'success' and l[1] == es['id']]
+                nf = [l for l in retry if l[0] in ('failure', 'exception') and l[1] == es['id']]
+                if nf:
+                    return bad('failure-count', 'event %d fired again: nothing raised, yet %r' % (es['id'], nf[:2]))
+                if len(ns) != (1 if es['success'] else 0):
+                    return bad('success-count', 'event %d fired again (no handler raises this time): %d success events, success requested=%r' % (
+                        es['id'], len(ns), es['success']))
         if spec.get('xfrag'):
             # the failing reporter is a failing handler like any other: one exception event per failure of its own,
             # and the recorder behind it still saw every generated failure (checked above per event)
